@@ -141,3 +141,23 @@ Definition assigned (i : nat) (l : list (nat * Z)) : option Z :=
 
 (* the walk from pair p with the side expression of the source spelled out (used by the composition theorem) *)
 Definition walk_from (nodes : list node) (p : Z) (s : sample) : option Z := tree_group (S (length nodes)) nodes p s.
+
+(* did the breadth-first split empty its queue within the fuel? (the driver checks it for every run of [tree_bfs]) *)
+Fixpoint bfs_done (fuel : nat) (nodes : list node) (queue : list (Z * list (nat * sample))) : bool :=
+  match queue with
+  | [] => true
+  | (p, ss) :: rest =>
+      match fuel with
+      | O => false
+      | S f =>
+          let nd := znth p nodes node0 in
+          if src_c10_tree_terminal (n_next nd) then bfs_done f nodes rest
+          else bfs_done f nodes
+                 (rest ++ [(n_next (znth (src_c10_tree_child p 0) nodes node0), stump_part (n_feature nd) (n_thr nd) 0 ss);
+                           (n_next (znth (src_c10_tree_child p 1) nodes node0), stump_part (n_feature nd) (n_thr nd) 1 ss)])
+      end
+  end.
+(* a fuel that always suffices: every visit of a pair at distance h from the end of the table costs at most 2^(h+1) - 1 steps *)
+Definition bfs_weight (nodes : list node) (p : Z) : nat := 2 ^ S (Z.to_nat ((nlen nodes - p) / 2)) - 1.
+Definition bfs_fuel (nodes : list node) (queue : list (Z * list (nat * sample))) : nat :=
+  fold_right (fun e acc => (bfs_weight nodes (fst e) + acc)%nat) 0%nat queue.
